@@ -167,7 +167,7 @@ Proof.
     destruct (c_step true fb tid_of c o) as [c' ob] eqn:E. destruct B as (I' & _ & _). cbn [fst] in S.
     assert (Hc' : c_closed c' = true /\ c_A c' = c_A c).
     { destruct Hs as (_ & _ & S3). destruct (S3 Hc) as [Sa St].
-      destruct o as [id raw h|raw|d|now|now|r|s| |now|d|fid]; cbn [c_step] in E.
+      destruct o as [id raw h|raw|d|now|now|r|s| |now|d|fid|sid]; cbn [c_step] in E.
       - unfold c_start, c_start_gen in E. rewrite Hc in E. injection E as <- _. auto.
       - unfold c_start, c_start_gen in E. rewrite Hc in E. injection E as <- _. auto.
       - unfold c_deliver in E. destruct (decode _) as [m st]. destruct st as [[]| | |]; try (injection E as <- _; auto).
@@ -179,11 +179,12 @@ Proof.
       - unfold c_close in E. rewrite Hc in E. injection E as <- _. auto.
       - unfold c_tick_race in E. cbn [c_closed] in E. rewrite Hc in E. injection E as <- _. cbn [c_closed c_A]. auto.
       - unfold c_deliver_race in E. rewrite Hc in E. injection E as <- _. auto.
-      - injection E as <- _. unfold c_foreign. rewrite (astep_closed_same _ _ Sa). cbn [fst c_closed c_A upd_A]. auto. }
+      - injection E as <- _. unfold c_foreign. rewrite (astep_closed_same _ _ Sa). cbn [fst c_closed c_A upd_A]. auto.
+      - unfold c_app_stop in E. rewrite (astep_closed_same _ _ Sa) in E. cbn [feed] in E. injection E as <- _. cbn [c_closed c_A upd_A]. auto. }
     destruct Hc' as [Hc' HA']. split; [exact I'|]. split; [exact S|]. split; [rewrite HA'; exact Ha|].
     apply dlinv_nil. destruct S as (_ & _ & S3). apply S3, Hc'. }
   destruct Hs as (Cv & S2 & S3). specialize (S2 Hc).
-  destruct o as [id raw h|raw|d|now|now|r|s| |now|d|fid]; cbn [c_step] in *.
+  destruct o as [id raw h|raw|d|now|now|r|s| |now|d|fid|sid]; cbn [c_step] in *.
   - (* Start *)
     unfold c_start, c_start_gen in *. rewrite Hc in *.
     set (t := mkTxn (c_next_inst c) id 0 0 h (c_rto c) raw) in *.
@@ -317,6 +318,21 @@ Proof.
       unfold a_step in Est. rewrite S2, Hm in Est. injection Est as <- _ _. apply Hd, Hin.
     + pose proof (astep_lookup_other (c_A c) (AStart fid FOREIGN_DEADLINE) fid (t_id t) Ha E) as Hl. rewrite Est in Hl. cbn [fst] in Hl.
       rewrite Hl by (left; eexists; reflexivity). apply Hd, Hin.
+  - (* the application stops a transaction through the shared agent *)
+    unfold c_app_stop in *.
+    destruct (a_step (c_A c) (AStopErr sid E_STOPPED)) as [A' [r evs]] eqn:Est.
+    assert (HA' : ainv A') by (pose proof (ainv_step (c_A c) (AStopErr sid E_STOPPED) Ha) as Hs; rewrite Est in Hs; exact Hs).
+    destruct (budget_ext c (upd_A c A') eq_refl eq_refl eq_refl) as [Hi1 _].
+    pose proof (feed_deadline fb (kind_evk []) evs (upd_A c A') lw (Hi1 Ht) HA') as Hf.
+    destruct (feed true fb (upd_A c A') evs (kind_evk [])) as [c2 ob]. cbn [fst] in S.
+    destruct Hf as (D2 & A2 & I2).
+    { intros t Hin HP. cbn [c_T c_A upd_A] in *.
+      assert (Hne : t_id t <> sid).
+      { intros E. apply HP. unfold a_step in Est. rewrite S2 in Est. rewrite <- E in Est.
+        rewrite (Cv _ (in_map t_id _ _ Hin)) in Est. injection Est as _ _ <-. left. reflexivity. }
+      pose proof (astep_lookup_other (c_A c) (AStopErr sid E_STOPPED) sid (t_id t) Ha Hne) as Hl. rewrite Est in Hl. cbn [fst] in Hl.
+      rewrite Hl by (right; left; eexists; reflexivity). apply Hd, Hin. }
+    split; [exact I2|]. split; [exact S|]. split; assumption.
 Qed.
 
 (* ---------- what a collector tick may do, and when ---------- *)
